@@ -236,6 +236,7 @@ type c09Inst struct {
 	blobs     [][]byte
 	changes   int // merges that changed the state
 	noops     int // merges of known material
+	warm      *silence.Silencer
 }
 
 func (w *c09World) newInst(name string, retention time.Duration) *c09Inst {
@@ -466,6 +467,9 @@ func (w *c09World) deliver(in *c09Inst, blob []byte, vers []int, nowNs int64, wh
 	}
 	in.lastSent, in.sent = in.sent, nil
 	in.blobs = append(in.blobs, blob)
+	// keep the instance's long-running Silencer exercised at every intermediate instant (its per-alert cache
+	// ages with the history) and compare it with a fresh one
+	_ = w.mutes(in)
 	return changed
 }
 
@@ -620,9 +624,18 @@ func c09Universe() []map[string]string {
 func (w *c09World) mutes(in *c09Inst) []bool {
 	uni := c09Universe()
 	out := make([]bool, len(uni))
+	// The instance's long-running Silencer (warm per-alert cache, as the notification pipeline uses it) must
+	// give the same verdicts: "effective on every connected instance" is what that Silencer says. (The defect
+	// F1, which made a warm cache miss a replicated revival, is repaired by a058e5e.)
+	if in.warm == nil {
+		in.warm = silence.NewSilencer(in.s, nopLog, eventrecorder.Recorder{})
+	}
 	for i, ls := range uni {
 		sil := silence.NewSilencer(in.s, nopLog, eventrecorder.Recorder{})
 		out[i] = sil.Mutes(context.Background(), toLabelSet(ls))
+		if warm := in.warm.Mutes(context.Background(), toLabelSet(ls)); warm != out[i] {
+			w.fail(pbt.V("mutes-differ", "%s: the instance's long-running Silencer says Mutes(%v) = %v, a fresh Silencer over the same store says %v", in.name, ls, warm, out[i]).With("labels", ls).With("warm_cache", true))
+		}
 	}
 	return out
 }
